@@ -17,6 +17,7 @@ from ..alg import AlgError, Context, Rat
 from ..extract import Extractor, Closure, Opaque, PathRaises, ReturnValue, _dotted
 from ..spacing import SpacingEx, constraint_value
 from ..model import Program, walk_own, is_self_attr, canon
+from ..model import canon as K
 from ..report import AnalysisError
 from .. import slices
 
@@ -306,9 +307,104 @@ def segment_pairs(prog, rep, grad=True):
     rep.floor("R5.segment-pairs", n_pairs, 20)
 
 
+from .. import tables  # noqa: E402
+
+
+def segment_adapter_rule(prog, rep):
+    """The segment tables give each radial segment nx, psi_start, psi_end and optionally
+    grad_start / grad_end; `segmentsWithPsivals` turns a table entry into the call of the grid
+    function.  The table rules above (and the table model of hv/tables.py) assume that it hands
+    every entry over under its own role - both gradients when both are present (the
+    inter-separatrix segment of a disconnected double null).  Decided here on the call as written."""
+    from ..model import inline_temporaries
+    from . import c13
+    mod = prog.module(tables.TOK)
+    f = mod.funcs.get("TokamakEquilibrium.segmentsWithPsivals")
+    if f is None:
+        raise AnalysisError("TokamakEquilibrium.segmentsWithPsivals not found")
+    calls = [n for n in ast.walk(f.node) if isinstance(n, ast.Call) and mod.code(n.func) == "self.getSmoothMonotonicGridFunc"]
+    if len(calls) != 1:
+        rep.ob("R5", "segmentsWithPsivals calls the grid function once per segment", False, f.site(), "%d calls" % len(calls), key="adapter/call")
+        return
+    c = calls[0]
+    pos = [mod.code(inline_temporaries(f.node, a)) for a in c.args]
+    kw, spread = c13._expanded_keywords(mod, f.node, c)
+    loop = next((l for l in ast.walk(f.node) if isinstance(l, ast.For) and any(x is c for x in ast.walk(l))), None)
+    seg = loop.target.elts[1].id if loop is not None and isinstance(loop.target, ast.Tuple) and len(loop.target.elts) == 2 else "segment"
+    want_pos = [K('%s["nx"]' % seg), K('%s["psi_start"]' % seg), K('%s["psi_end"]' % seg)]
+    ok_pos = pos == want_pos or (not pos and [kw.get(k) for k in ("n", "lower", "upper")] == want_pos)
+    rep.ob("R5", "segmentsWithPsivals: the grid function gets (nx, psi_start, psi_end) of the segment in this order", ok_pos, f.site(c), str(pos), key="adapter/positional")
+    forms = lambda key: (K('%s.get("%s", None)' % (seg, key)), K('%s.get("%s")' % (seg, key)))
+    if not spread:
+        ok = kw.get("grad_lower") in forms("grad_start") and kw.get("grad_upper") in forms("grad_end")
+        detail = "grad_lower=%s, grad_upper=%s" % (kw.get("grad_lower"), kw.get("grad_upper"))
+    else:
+        ok, detail = _spread_gradients(mod, f, loop, seg, spread)
+    rep.ob("R5", "segmentsWithPsivals: grad_start is handed over as grad_lower and grad_end as grad_upper, each whenever the segment has it (both for a segment that has both)", ok,
+           f.site(c), detail, key="adapter/gradients")
+    mk = [n for n in ast.walk(f.node) if isinstance(n, ast.Call) and mod.code(n.func) == "self.make1dGrid"]
+    ok = len(mk) == 1 and mod.code(inline_temporaries(f.node, mk[0].args[0])) == want_pos[0] and isinstance(mk[0].args[1], ast.Name)
+    rep.ob("R5", "segmentsWithPsivals: the 1-D grid is made with the segment's nx from that grid function", ok, f.site(), "", key="adapter/make1dGrid")
+
+
+def _spread_gradients(mod, f, loop, seg, spread):
+    """the optional gradients passed as `**d`: d is replayed on each of the four combinations of
+    `"grad_start" in segment` / `"grad_end" in segment`; it must hold grad_lower exactly when the
+    segment has grad_start and grad_upper exactly when it has grad_end"""
+    import itertools
+    from ..stores import effects
+    if len(spread) != 1 or loop is None:
+        return False, "unmodelled: several run-time dictionaries are spread into the call"
+    d = spread[0]
+    effs = [e for e in effects(loop, inline=False) if (e.kind == "store" and (mod.code(e.target) == d or (isinstance(e.target, ast.Subscript) and mod.code(e.target.value) == d)))
+            or (e.kind == "call" and mod.code(e.value.func) == d + ".update")] if False else None
+    # effects() works on a function node: wrap the loop body
+    wrapper = ast.FunctionDef(name="_loop", args=ast.arguments(posonlyargs=[], args=[], kwonlyargs=[], kw_defaults=[], defaults=[]), body=loop.body, decorator_list=[], lineno=loop.lineno, col_offset=0)
+    effs = effects(wrapper, inline=False)
+    has = {"grad_start": K('"grad_start" in %s' % seg), "grad_end": K('"grad_end" in %s' % seg)}
+    want_val = {"grad_lower": (K('%s["grad_start"]' % seg), K('%s.get("grad_start")' % seg), K('%s.get("grad_start", None)' % seg)),
+                "grad_upper": (K('%s["grad_end"]' % seg), K('%s.get("grad_end")' % seg), K('%s.get("grad_end", None)' % seg))}
+    for gs, ge in itertools.product((True, False), repeat=2):
+        truth = {has["grad_start"]: gs, has["grad_end"]: ge}
+        cur = None
+        for e in effs:
+            conds = [c for c in e.conds if not isinstance(c, str)]
+            take = True
+            for c in conds:
+                t = mod.code(c)
+                neg = False
+                if isinstance(c, ast.Compare) and isinstance(c.ops[0], ast.NotIn):
+                    t = mod.code(ast.Compare(left=c.left, ops=[ast.In()], comparators=c.comparators))
+                    neg = True
+                if t not in truth:
+                    return False, "unmodelled condition `%s` on the construction of %s" % (t, d)
+                if truth[t] == neg:
+                    take = False
+            if not take:
+                continue
+            if e.kind == "store" and mod.code(e.target) == d:
+                if not (isinstance(e.value, ast.Dict) and all(isinstance(k, ast.Constant) for k in e.value.keys)):
+                    return False, "unmodelled value of %s: %s" % (d, mod.code(e.value)[:60])
+                cur = {k.value: mod.code(v) for k, v in zip(e.value.keys, e.value.values)}
+            elif e.kind == "store" and isinstance(e.target, ast.Subscript) and mod.code(e.target.value) == d and isinstance(e.target.slice, ast.Constant):
+                if cur is None:
+                    return False, "unmodelled: %s is filled before it is created" % d
+                cur[e.target.slice.value] = mod.code(e.value)
+            elif e.kind == "call" and mod.code(e.value.func) == "self.getSmoothMonotonicGridFunc":
+                break
+        if cur is None:
+            return False, "unmodelled: %s is not built in the segment loop" % d
+        want_keys = ({"grad_lower"} if gs else set()) | ({"grad_upper"} if ge else set())
+        present = {k for k, v in cur.items() if v not in ("None",)}
+        if present != want_keys or any(cur[k] not in want_val[k] for k in present):
+            return False, "a segment %s grad_start and %s grad_end is gridded with %s" % ("with" if gs else "without", "with" if ge else "without", cur or "no end gradient")
+    return True, "both combinations of present keys handed over through **%s" % d
+
+
 def r5(prog, rep):
     from .. import tables
     segment_pairs(prog, rep, grad=True)
+    segment_adapter_rule(prog, rep)
     # the gradient term scales like 1/nx (needed for nesting): every candidate of min_abs is (psi difference)/nx_k
     t = tables.topology(prog, "LDN")
     g = t.segments["core"]["grad_end"]
